@@ -157,7 +157,7 @@ def is_null(v):
 def expected_cells(series, kind, meta, nan_is_null):
     """physical rendering of a pandas column, given what the file's schema says about the column
     (meta = [ptype, converted|-1, ts unit, max def level, type length]); 'n' = NULL"""
-    ptype, conv, unit, maxdef, tlen = meta
+    ptype, conv, unit, maxdef, tlen = meta[:5]
     out = []
     if isinstance(series.dtype, pd.CategoricalDtype):
         vals = [None if c < 0 else series.cat.categories[c] for c in series.cat.codes]
